@@ -30,7 +30,7 @@ CHECKS["C01"] = dict(level="proof", engine="tabinv+pyvc",
     text="All rooted-tree order conditions up to the declared order of the 29 Runge-Kutta tables (RadauIIA19: simplifying assumptions B(19), C(10), D(9) + trees to order 9), row sums, "
          "estimator consistency with the weights extracted by symbolic execution of the real get_error_estimate (incl. the RadauIIA19 override; cross-checked against the weights probed on the imported object), P-series conditions of the 3 splitting tables, and the Aitken-Neville moment conditions on the weights "
          "the real adaptive_richardson returns (extracted by symbolic execution for 2..5 levels and every shipped base order; subdiv_step proved to be the chained composition). "
-         "Exact rational arithmetic; RK14(12) orders 13-14 (49 000 trees) are in the thorough tier. The declared orders of the two high-order splitting schemes are a recorded known finding (F3).",
+         "Exact rational arithmetic; RK14(12) orders 13-14 (49 000 trees) are in the thorough tier. The declared orders of the two high-order splitting schemes are a recorded known finding (F3). The factory generate_richardson_integrator is executed too: for k requested levels it returns the class it defined in that call, closed over k and the given basis (a class read back from module-level state is refuted).",
     note="A8 (Butcher's order theorem, P-series, simplifying-assumption theorem, Aitken-Neville) is cited, not mechanised; rounding slack derived, margins reported; A1",
     technique="data-structure invariant of the coefficient tables by exact arithmetic + weights extracted from the real code by symbolic execution",
     design_ref="DESIGN.md section 4 C01")
@@ -38,7 +38,7 @@ CHECKS["C02"] = dict(level="proof", engine="pyvc",
     text="compute_step, RungeKuttaIntegrator.step, algebraic_system and ExplicitSymplecticIntegrator.step are executed symbolically (uninterpreted right-hand side, symbolic t, y, h; LinComb domain) for "
          "all 32 shipped tables and proved equal to an independently written specification of the Runge-Kutta / drift-kick formulas, incl. stale-buffer frames and FSAL branches; the branch flags (_explicit, _fsal, _adaptive) are proved from the real constructors (TableauIntegrator / RungeKuttaIntegrator.__init__) to be the defining predicates of the tables; "
          "the tolerance handed to the nonlinear solver is a function of this step's state and the integrator's atol / rtol only (data-flow clause, step executed from an arbitrary solver_dict with the keys the constructor creates); "
-         "RungeKuttaIntegrator.__call__ is executed over its control skeleton: an implicit step whose solve did not converge is never returned. The success flag of an implicit step implies that the residual *this* call of nonlinear_roots returned is below the tolerance it was given (comparison provenance), not a value an earlier solve left in solver_dict.",
+         "RungeKuttaIntegrator.__call__ is executed over its control skeleton: an implicit step whose solve did not converge is never returned. The success flag of an implicit step implies that the residual *this* call of nonlinear_roots returned is below the tolerance it was given (comparison provenance), not a value an earlier solve left in solver_dict. Float side: the splitting step discards the previous increment by a store, not by multiplying it by zero (defect F37, repaired).",
     note="the nonlinear solve itself is external (A6, assumed contract; native stage residuals are a bounded clause); floats as reals (A1); shapes/dtypes not modelled",
     technique="symbolic execution of the real functions in a free-vector-space domain, exact polynomial identity; control-flow post-condition by z3",
     design_ref="DESIGN.md section 4 C02")
